@@ -1220,6 +1220,9 @@ def replay(data):
 def run(ctx):
     import darsia as d
 
+    _fail = ctx.fail
+    ctx.fail = lambda sig, what, rep: _fail(sig, what, dict(rep, verif_seed=ctx.seed, tier=ctx.tier))  # replays are reproducible
+
     t = tabulate_guard(d)
     ctx.write_gen("MulGuard", emit_guard(t))
     ctx.cov["generated_tables"] = {"mulGuard": {k: repr(v) if isinstance(v, Raised) else "ok" for k, v in t.items()}}
